@@ -617,7 +617,8 @@ pub struct SixtyCycleMonth {
 impl Tyme for SixtyCycleMonth {
   fn next(&self, n: isize) -> Self {
     SixtyCycleMonth {
-      year: SixtyCycleYear::from_year((self.year.get_year() * 12 + self.get_index_in_year() as isize + n) / 12),
+      // 向下取整：干支年可以是-1，负数用/会向零截断而得到错误的年
+      year: SixtyCycleYear::from_year((self.year.get_year() * 12 + self.get_index_in_year() as isize + n).div_euclid(12)),
       month: self.month.next(n),
     }
   }
